@@ -19,6 +19,7 @@ SPEC = {
         '(its failing inputs are corpus entries replayed on the real function)',
         'MerkleCache is modelled sequentially (source_func never suspends): interleavings with a re-org are C11 (finding F7)',
         'the model is tied to lib.merkle by differential execution, not by proof',
+        'cache_any_sequence fixes the source for the whole operation sequence; a source change after a truncate is covered only by the single-step lemma cache_source_change; bar_padding with tsc = false does not state that the branch is star-free',
     ],
     'design_ref': 'DESIGN.md §6 C12, §8 F2',
     'level_text': 'proof: for every non-empty list, index, format, length padding, depth and cache operation sequence (no bound), '
